@@ -112,11 +112,11 @@ CLAIMS = {
          BND_NOTE % 'C10' + LX, 'Lean proofs for the algebraic pairs; pyvc corollaries over the proved contracts of distance_wei / distance_bin and efficiency_wei / efficiency_bin; pairwise comparison on exhaustive small scopes (bounded) for the other loop-based pairs', '5/C10'),
  'C04': ('exploration',
          'Partly deductive: Lean proofs over the extracted real source (all n, every permutation sigma of Fin n) of renumbering equivariance/invariance for 16 algebraic measures (degrees, strengths, densities, '
-         'clustering_coef_bd/wd/wu, four transitivities, given-partition modularity_und/_dir) — 17 theorems. For seven loop-based distance measures (distance_bin, distance_wei, distance_wei_floyd, breadthdist, reachdist: the distance matrix / reachability of the renumbered network is the renumbered result; efficiency_bin, efficiency_wei global: unchanged) equivariance is a corollary over their proved contracts (contracts/renumbering.py; Lean: hop distance, weighted distance and totals are invariant under a permutation of the nodes). All other loop-based, LAPACK-based and tie-breaking measures (71 registry entries incl. the bounded re-check of these seven: distances, '
+         'clustering_coef_bd/wd/wu, four transitivities, given-partition modularity_und/_dir) — 17 theorems. For clustering_coef_bu (per-node vector) and seven loop-based distance measures (distance_bin, distance_wei, distance_wei_floyd, breadthdist, reachdist: the distance matrix / reachability of the renumbered network is the renumbered result; efficiency_bin, efficiency_wei global: unchanged) equivariance is a corollary over their proved contracts (contracts/renumbering.py; Lean: hop distance, weighted distance and totals are invariant under a permutation of the nodes). All other loop-based, LAPACK-based and tie-breaking measures (71 registry entries incl. the bounded re-check of these seven: distances, '
          'efficiency, betweenness, cores, rich club, assortativity, PageRank, eigenvector/subgraph centrality, matching index, gtom, edge overlap, flow coefficient, participation, z-score, components ...) are '
          'BOUNDED only: all adjacent transpositions on relabelling-closed exhaustive sets (undirected n<=5, directed n<=3), weighted/signed variants, symmetric graphs with repeated eigenvalues. Level claimed '
          'is exploration because the property quantifies over every measure.',
-         BND_NOTE % 'C04' + LX, 'Lean equivariance proofs for algebraic measures; pyvc corollaries over proved contracts for seven distance measures; exhaustive small-scope equivariance check (bounded) for the rest', '5/C04'),
+         BND_NOTE % 'C04' + LX, 'Lean equivariance proofs for algebraic measures; pyvc corollaries over proved contracts for seven distance measures and clustering_coef_bu; exhaustive small-scope equivariance check (bounded) for the rest', '5/C04'),
  'C14': ('exploration',
          'Partly deductive: Lean proofs over the extracted real source that the given-partition values of modularity_und, modularity_dir (label_invariant under injective g; depends on the partition only) and '
          'modularity_und_sign (5 qtypes, relative to the rank contract of np.unique and free node degrees) are invariant under renaming of labels — 9 theorems. participation_coef (degree undirected/out) is proved (pyvc+z3) to return 1 - sum_m modsum(W, ci, x, m)^2 / strength(x)^2 (0 for isolated nodes) for the rank labels produced by np.unique, an expression that depends on the labels only through the partition (Lean: msq_relabel); the statement of the property for this routine -- two label vectors that induce the same partition, contiguous or not, give the same coefficients -- is discharged as a corollary over that contract (contracts/relabelling.py). participation_coef_sign, '
